@@ -25,14 +25,19 @@ const (
 	vfOpWriteMove = 0
 	vfOpMark      = 1
 	vfOpReset     = 2
+	vfOpQuery     = 3  // (sparse mode) compare history / oldest / recent with the model
+	vfOpBurst     = 10 // 10+k: k times write+move without looking in between
 )
 
 type vfC19Case struct {
 	Cap int   `json:"cap"`
-	Ops []int `json:"ops"` // 0 = write a frame into current and move, 1 = set-as-oldest, 2 = reset
+	Ops []int `json:"ops"` // 0 = write a frame into current and move, 1 = set-as-oldest, 2 = reset, 3 = query, 10+k = k moves
+	// Sparse: the ring is looked at only at the query operations (and at the end) instead of after every
+	// operation - looking is not free of side effects in an implementation that caches
+	Sparse bool `json:"sparse,omitempty"`
 }
 
-const vfC19Rule = "generated: capacity 1-9 and up to 60 operations over {write+move, set-as-oldest, reset}; after every operation a fresh frame is written into the current slot and history/oldest/recent are compared with a list model. Non-trivial: the ring wrapped at least once while a set-as-oldest mark placed after the epoch start was buffered and that mark later expired (was overwritten). Distinct by hash of (capacity, operations)."
+const vfC19Rule = "generated: capacity 1-9 (sometimes 47) and up to 60 operations over {write+move, set-as-oldest, reset, bursts of k moves with k around multiples of the capacity, 2^8 and 2^16}; either after every operation, or (every second case) only at explicit query operations, a fresh frame is written into the current slot and history/oldest/recent are compared with a list model. Non-trivial: the ring wrapped at least once while a set-as-oldest mark placed after the epoch start was buffered and that mark later expired (was overwritten). Distinct by hash of (capacity, operations)."
 
 func vfGenC19(t *rapid.T) vfC19Case {
 	c := vfC19Case{Cap: rapid.IntRange(1, 9).Draw(t, "cap")}
@@ -41,6 +46,31 @@ func vfGenC19(t *rapid.T) vfC19Case {
 	c.Ops = make([]int, n)
 	for i := range c.Ops {
 		c.Ops[i] = op.Draw(t, "op")
+	}
+	c.Sparse = rapid.Bool().Draw(t, "sparse")
+	if c.Sparse {
+		if rapid.IntRange(0, 9).Draw(t, "bigcap") == 0 {
+			c.Cap = 47
+		}
+		// queries at a few places only, and bursts of moves in between: whole laps, almost whole laps, and
+		// (rarely) as many moves as a narrow counter can hold
+		for i := range c.Ops {
+			switch rapid.IntRange(0, 9).Draw(t, "sp") {
+			case 0, 1:
+				c.Ops[i] = vfOpQuery
+			case 2:
+				k := c.Cap*rapid.IntRange(1, 3).Draw(t, "laps") + rapid.IntRange(-1, 1).Draw(t, "lapoff")
+				if k < 1 {
+					k = 1
+				}
+				c.Ops[i] = vfOpBurst + k
+			}
+		}
+		if rapid.IntRange(0, 7).Draw(t, "long") == 0 && n > 0 {
+			base := rapid.SampledFrom([]int{256, 256, 65536, 65536, 70000}).Draw(t, "longbase")
+			at := rapid.IntRange(0, n-1).Draw(t, "longat")
+			c.Ops[at] = vfOpBurst + base + rapid.IntRange(-c.Cap-1, c.Cap+1).Draw(t, "longoff")
+		}
 	}
 	return c
 }
@@ -73,19 +103,31 @@ func vfTag(f *cptvframe.Frame) int { return int(f.Pix[0][0]) }
 
 func vfRunC19(c vfC19Case) *kit.Result {
 	r := &kit.Result{}
+	if c.Cap < 1 || c.Cap > 64 || len(c.Ops) > 200 {
+		r.Failf("malformed case")
+		return r
+	}
+	for _, op := range c.Ops {
+		if op < 0 || (op > vfOpQuery && op < vfOpBurst) || op > vfOpBurst+200000 {
+			r.Failf("malformed case")
+			return r
+		}
+	}
 	cam := vfCam{2, 2, 9}
 	fl := NewFrameLoop(c.Cap, cam)
 	m := &vfRingModel{cap: c.Cap}
 	next := 1
 	wrapped, markSet, markExpired, resets := false, false, false, 0
 
+	pendValid := false
 	query := func(step int) bool {
 		// The frame being received: written into the current slot, not yet moved past.
-		pend := next
+		pend := next%60000 + 1
 		next++
 		cur := fl.Current()
 		cur.Pix[0][0] = uint16(pend)
 		cur.Pix[1][1] = uint16(pend)
+		pendValid = true
 		n := len(m.written)
 		at := func(pos int) int {
 			if pos == n {
@@ -142,18 +184,47 @@ func vfRunC19(c vfC19Case) *kit.Result {
 	if !query(-1) {
 		return r
 	}
+	writeMove := func() {
+		if !pendValid {
+			// nothing was received into the current slot since the last move: receive a frame now
+			pend := next%60000 + 1
+			next++
+			cur := fl.Current()
+			cur.Pix[0][0] = uint16(pend)
+			cur.Pix[1][1] = uint16(pend)
+		}
+		// the pending frame (written by the last query, or just now) is the one moved past
+		m.written = append(m.written, vfTag(fl.Current()))
+		fl.Move()
+		pendValid = false
+		if len(m.written) >= c.Cap {
+			wrapped = true
+		}
+		if markSet && !m.markBuffered() {
+			markExpired = true
+		}
+		if len(m.written) > 4*c.Cap+8 {
+			// only the tail matters to the model: keep positions relative
+			drop := len(m.written) - (2*c.Cap + 4)
+			m.written = append(m.written[:0], m.written[drop:]...)
+			m.mark -= drop
+			if m.mark < 0 {
+				m.mark = -1 // expired long ago
+			}
+		}
+	}
+	bursts := 0
 	for i, op := range c.Ops {
+		switch {
+		case op == vfOpWriteMove:
+			writeMove()
+		case op >= vfOpBurst:
+			for k := op - vfOpBurst; k > 0; k-- {
+				writeMove()
+			}
+			bursts++
+		}
 		switch op {
-		case vfOpWriteMove:
-			// the pending frame written by the last query is the one moved past
-			m.written = append(m.written, vfTag(fl.Current()))
-			fl.Move()
-			if len(m.written) >= c.Cap {
-				wrapped = true
-			}
-			if markSet && !m.markBuffered() {
-				markExpired = true
-			}
 		case vfOpMark:
 			fl.SetAsOldest()
 			m.mark = len(m.written)
@@ -166,10 +237,23 @@ func vfRunC19(c vfC19Case) *kit.Result {
 			m.mark = 0
 			resets++
 			markSet = false
+			pendValid = false
+		}
+		if c.Sparse && op != vfOpQuery {
+			continue
 		}
 		if !query(i) {
 			return r
 		}
+	}
+	if c.Sparse && !query(len(c.Ops)) {
+		return r
+	}
+	if c.Sparse {
+		r.Class("sparse_queries")
+	}
+	if bursts > 0 {
+		r.Class("bursts")
 	}
 	r.NT = wrapped && markExpired
 	r.Class(fmt.Sprintf("cap=%d", c.Cap))
